@@ -490,21 +490,7 @@ def execute(item):
                 continue
         viols.append({"key": key, "detail": {"cfg": cfg, "what": detail, "near_miss": near}})
     counts = dict(r["counts"])
-    table = {}
-    for fusion, res in per.items():
-        base = res.split("[")[0]
-        table[fusion] = base
-        counts[f"{fusion}|instances"] = 1
-        if base.startswith("fused"):
-            counts[f"{fusion}|fused"] = 1
-            if near:
-                counts[f"{fusion}|near_miss_fused"] = 1
-        elif base in ("unchanged", "nofusion-ok"):
-            counts[f"{fusion}|unchanged"] = 1
-        elif base.startswith("skip"):
-            counts[f"{fusion}|{base}"] = 1
-        else:
-            counts[f"{fusion}|violating"] = 1
+    table = {fusion: res.split("[")[0] for fusion, res in per.items()}
     if near:
         counts["near_miss_instances"] = 1
     outcome = item["fam"] + "|" + ";".join(f"{k}={v}" for k, v in sorted(per.items()))
